@@ -322,7 +322,7 @@ class Contract:
                 raise Unsupported(f"{self.fid}: explicit extra keywords into **{kn}")
         return bound
 
-    def apply(self, eng, st: State, pos, kw, node=None):
+    def apply(self, eng, st: State, pos, kw, node=None, closure_env=None):
         # a union-valued argument (Optional, ...) that does not fit the declared kind as a whole is split
         # into its feasible alternatives; infeasible ones (e.g. None after a truthiness test) are pruned
         for i, v in enumerate(pos):
@@ -330,10 +330,10 @@ class Contract:
                     and not isinstance(self.params[i][1], KFn) and not fits(v, self.params[i][1]):
                 outs = []
                 for s2, alt in eng.split(st, v):
-                    outs.extend(self.apply(eng, s2, [*pos[:i], alt, *pos[i + 1:]], kw, node))
+                    outs.extend(self.apply(eng, s2, [*pos[:i], alt, *pos[i + 1:]], kw, node, closure_env))
                 return outs
         bound = self.bind_args(pos, kw)
-        env = {}
+        env = dict(closure_env or {})   # a nested function's contract may mention the variables it closes over
         subst: dict = {}
         for n, k, d in self.params:
             if n in bound:
